@@ -403,7 +403,8 @@ func ruleC05SortWiring(c *Ctx) {
 	} else {
 		less := mc.Fn.(*ssa.Function)
 		c.Fn(c.P.funcKey(less))
-		paths, err := WalkFunc(less, WalkCfg{MaxVisits: 1})
+		// the captured variables (or the fields of the record a method value is bound to) resolve to Sort's own values
+		paths, err := WalkFunc(less, WalkCfg{MaxVisits: 1, Bind: bindFreeVars(mc)})
 		if err != nil {
 			ok, why = false, err.Error()
 		}
@@ -419,10 +420,10 @@ func ruleC05SortWiring(c *Ctx) {
 				continue
 			}
 			a := t.Args
-			isFV := func(t *Term) bool {
-				return t.Op == "freevar" || (t.Op == "load" && t.Args[0].Op == "freevar")
+			isSortParam := func(t *Term, k int) bool {
+				return t.Op == "param" && k < len(sortFn.Params) && t.Name == sortFn.Params[k].Name()
 			}
-			if !(isFV(a[0]) && a[1].Op == "param" && a[1].Name == less.Params[0].Name() && a[2].Op == "param" && a[2].Name == less.Params[1].Name() && isFV(a[3])) {
+			if !(isSortParam(a[0], 0) && a[1].Op == "param" && a[1].Name == less.Params[0].Name() && a[2].Op == "param" && a[2].Name == less.Params[1].Name() && isSortParam(a[3], 1)) {
 				ok, why = false, "less does not return comparator(slice, i, j, orderBy) with i, j in order: "+t.String()
 			}
 			// error path must not return normally
